@@ -99,7 +99,8 @@ def confirm(src, pid, name):
         dst = os.path.join(SEEDED, f'{pid}-{name}')
         os.makedirs(dst, exist_ok=True)
         # store the patch as it applies to the current HEAD
-        rc, out, err = sh(['git', '-C', wt, 'diff', '--cached', '--', 'Python'])
+        rc, out, err = sh(['git', '-C', wt, 'diff', 'HEAD', '--', 'Python'])
+        assert out.strip(), 'empty patch'
         open(os.path.join(dst, 'patch.diff'), 'wt', encoding='utf-8').write(out)
         shutil.copy(os.path.join(src, 'demo.py'), os.path.join(dst, 'demo.py'))
         if os.path.isfile(os.path.join(src, 'notes.md')):
